@@ -8,7 +8,7 @@ import numpy as np
 PROPERTY = "C17"
 LEVEL = "exploration"
 RULE = (
-    "complete lattice of piecewise-constant histories: 1..3 (quick) / 1..4 (thorough) epochs, sizes in {0.5,1e2,1e4,3e4,1e6}^epochs (quick: without 0.5), "
+    "complete lattice of piecewise-constant histories: 1..3 (quick) / 1..4 (thorough) epochs, sizes in {0.5,1e2,1e4,3e4,1e6}^epochs (quick: {1e2,1e4,1e6}), "
     "breaks = every increasing subset of {0.5,10,1e3,1e4,1e6}; time vectors = {0, every break, every break +-1 ulp, midpoints, 10x last "
     "break}, passed sorted, reversed and rotated. oracle: to_coalescent == exact rational integral of 1/(2N(t)) (error <= 64 ulp of the "
     "largest intermediate term); element-wise results independent of vector order (bit-exact); to_natural(to_coalescent(t)) == t within "
@@ -27,7 +27,7 @@ GAM = [0.5, 1.0, 2.0, 50.0]
 def cases(tier, seed):
     out = []
     maxe = 3 if tier == "quick" else 4
-    sizes = SIZES[1:] if tier == "quick" else SIZES
+    sizes = [1e2, 1e4, 1e6] if tier == "quick" else SIZES
     for e in range(1, maxe + 1):
         for br in itertools.combinations(BREAKS, e - 1):
             for sz in itertools.product(sizes, repeat=e):
